@@ -112,6 +112,52 @@ class TopCL(Component):
       connect(s.mem.ifc[i].resp, s.sinks[i].recv)
 
 
+class SrcEnRdyRTL(Component):
+  """an en/rdy RTL master in front of the CL memory (connect() inserts the RTL-to-CL adapter): the request is
+  a SIGNAL, i.e. one message object that is overwritten in place with the next request"""
+  def construct(s, msgs, gaps, ctl, log, port, ReqT=ReqT):
+    from pymtl3.stdlib.ifcs import SendIfcRTL as ESendIfcRTL
+    s.send = ESendIfcRTL(ReqT)
+    s.idx = 0
+    s.wait = gaps[0] if gaps else 0
+    s.have = Wire(Bits1)
+
+    @update_ff
+    def up_src_ff():
+      if s.reset:
+        s.idx = 0
+        s.wait = gaps[0] if gaps else 0
+        s.have <<= 0
+      else:
+        if s.send.en:
+          log.append(("req", port, s.idx, ctl["cycle"]))
+          s.idx += 1
+          s.wait = gaps[s.idx] if s.idx < len(gaps) else 0
+        if s.wait > 0 and not ctl["stopped"]:
+          s.wait -= 1
+          s.have <<= 0
+        else:
+          s.have <<= 1 if s.idx < len(msgs) else 0
+
+    @update
+    def up_src_comb():
+      s.send.en @= s.have & s.send.rdy
+      if s.idx < len(msgs):
+        s.send.msg @= msgs[s.idx]
+
+
+class TopCLR(Component):
+  def construct(s, nports, stall_prob, latency, msgs, gaps, patterns, ctl, log, T, widths=None):
+    from pymtl3.stdlib.mem.MagicMemoryCL import MagicMemoryCL
+    ty = _types(widths, nports)
+    s.srcs = [SrcEnRdyRTL(msgs[i], gaps[i], ctl, log, i, ty[i][0]) for i in range(nports)]
+    s.mem = MagicMemoryCL(nports, ty, stall_prob, latency)
+    s.sinks = [SinkCL(patterns[i], ctl, log, i) for i in range(nports)]
+    for i in range(nports):
+      connect(s.srcs[i].send, s.mem.ifc[i].req)
+      connect(s.mem.ifc[i].resp, s.sinks[i].recv)
+
+
 class SrcRTL(Component):
   def construct(s, msgs, gaps, ctl, log, port, ReqT=ReqT):
     s.send = SSendIfcRTL(ReqT)
@@ -270,13 +316,13 @@ def gen_case(R, tier):
   flt = R("fault")
   s = R("sched")
   r = c.random()
-  dut = "cl" if r < 0.5 else ("rtl" if r < 0.9 else "fl")
+  dut = "cl" if r < 0.4 else "clr" if r < 0.5 else ("rtl" if r < 0.9 else "fl")
   if dut == "fl":
     reqs = gen_reqs(inp, inp.randint(10, 60), 0)
     return {"dut": "fl", "reqs": [reqs], "per_cycle": [inp.randint(0, 3) for _ in range(8)],
             "sched": [s.choice(("default", "default_s2", "mamba", "mamba_s2")), s.getrandbits(32)],
             "hash_seed": R.sub_seed("hash")}
-  nports = c.choice([1, 1, 2, 2, 3, 4]) if dut == "cl" else c.choice([1, 2, 2, 3])
+  nports = c.choice([1, 1, 2, 2, 3, 4]) if dut in ("cl", "clr") else c.choice([1, 2, 2, 3])
   lat = c.choice([0, 1, 1, 2, 3, 5, 8]) if dut == "cl" else c.choice([0, 0, 1, 2, 4, 6])
   nreq = [inp.randint(5, 30) for _ in range(nports)]
   # ports of one memory may carry different data widths (len == 0 means the PORT's full width)
@@ -371,7 +417,7 @@ def simulate(case, latency, stall_prob, stall_seed, stats):
     nports = case["nports"]
     widths = case.get("widths") or [32] * nports
     msgs = [mk_msgs(r, widths[i]) for i, r in enumerate(case["reqs"])]
-    Top = TopCL if dut == "cl" else TopRTL
+    Top = TopCL if dut == "cl" else TopCLR if dut == "clr" else TopRTL
 
     def build():
       return Top(nports, stall_prob, latency, msgs, case["gaps"], case["patterns"], ctl, log, case["T"], widths)
